@@ -160,6 +160,18 @@ theorem decodeLeaf_n0 (z : ByteArray) (hs : z.size = PAGE) (h2 : u16le z 0 = 0) 
 
 theorem u16le_zeros (n : Nat) : u16le (zeros n) 0 = 0 := by simp [u16le, u8_zeros]
 
+theorem get!_zeros (n i : Nat) : (zeros n).get! i = 0 := by
+  unfold zeros
+  rw [get!_toByteArray]
+  simp only [List.getD_eq_getElem?_getD, List.getElem?_replicate]
+  split <;> rfl
+
+theorem allZero_zeros (n : Nat) : allZero (zeros n) 0 n = true := by
+  unfold allZero
+  rw [List.all_eq_true]
+  intro i _
+  rw [get!_zeros]; rfl
+
 attribute [irreducible] zeros
 
 theorem decodeLeaf_zeros : decodeLeaf (zeros PAGE) = .error "leaf: n = 0" :=
